@@ -24,6 +24,14 @@ def jobs(tier):
                         continue
                     js.append({'name': 'lemma first-pass deps shape=%d %s before=%s after=%s' % (shape, kind, before, after),
                                'harness': (H2, 'h_deps'), 'params': {'mode': 'Build', 'shape': shape, 'kind': kind, 'before': before, 'after': after}})
+    # lemma "a completed dependency's output on disk is its fresh output, whatever was lying there": Build and --needed from a
+    # symbolic pre-existing output (longer, shorter, equal prefix ...) leave the bytes a build from a clean tree leaves
+    for sc in (['text'], ['include f'], ['text', 'text']):
+        for pl in ((3, 4, 5) if tier == 'quick' else (1, 2, 3, 4, 5, 6, 7)):
+            for md in ('Build', 'InMemoryBuild'):
+                js.append({'name': 'lemma fresh output over an old one: %s pre_out=%d %s' % (md, pl, '/'.join(sc)), 'harness': (H2, 'h_hermetic'),
+                           'params': {'nlines': len(sc), 'menu_name': 'small', 'fixed': sc, 'pre_out_len': pl, 'pre_temp_len': None,
+                                      'mode_a': md, 'mode_b': 'Build', 'inc_len': 1}})
     from . import project
     js += project.jobs('C02', tier)
     return js
@@ -43,4 +51,7 @@ COVERS_REQUIRED = ['acyclic', 'deps_reported_Build', 'final_pass_Build']
 def replay(native, v):
     if v['data'].get('op') == 'deps':
         return replay_deps(v)
+    if v['data'].get('op') == 'fs':
+        from . import c08
+        return c08.replay(native, v)
     return sched.replay(native, v)
